@@ -22,8 +22,8 @@ CTX_A = {
 CTX_B = dict(CTX_A, um=None, ue=None, specials=[['~', S()], ['--', S()], ['---', S()]])
 CTX_C = {'macros': [['m', S('m')], ['d', S('d<>')], ['r', S('r[]')], ['v', S('v')]], 'envs': [['e', S('m'), False]],
          'specials': [], 'um': S('o1'), 'ue': [S('s'), True]}
-# expression arguments that do not accept leading whitespace (a non-default flag of the standard argument parser):
-# the Lean context type has no such kind, these contexts are exercised by the oracles only
+# expression arguments that do not accept leading whitespace (a non-default flag of the standard argument parser;
+# `ArgKind.m0` in the Lean context type)
 CTX_D = {'macros': [['p', S('m', 'm0')], ['q', S('m0')], ['pm', S(['m0', '+'], 'm')], ['z', S()]],
          'envs': [['en', S('m0'), False]], 'specials': [['~', S()], ['!', S('m0')]], 'um': S(), 'ue': [S(), False]}
 CONTEXTS = {'A': CTX_A, 'B': CTX_B, 'C': CTX_C, 'D': CTX_D, 'default': 'default'}
